@@ -245,6 +245,49 @@ def run(ctx):
     ic.judge_observe_reports(ctx, reps, [obs], {"Deterministic"})
     ic.judge_submit_reports(ctx, sreps, [hist_A, hist_B], {"FoundByNext"},
                             describe=lambda tr, r: ic.short(tr[r["l"] - 1]["term"], 120))
+    concurrent_file_hash(ctx)
+
+
+def concurrent_file_hash(ctx):
+    """HashCacheEntry.tla on the real code: a writer session (entry write slowed down by a harness-side test double),
+    a reader session racing it and a late session must all obtain the same digest for one file."""
+    import subprocess, tempfile, shutil, os as _os
+    r0 = ctx.tlc("HashCacheEntry", cfg="HashCacheEntry.cfg", workers=1)
+    r1 = ctx.tlc("HashCacheEntry", cfg="HashCacheEntry_lockfree.cfg", workers=1, must_pass=False)
+    if "SameDigestEverywhere" not in r1.invariant_violated:
+        raise core.MachineryError("model insensitive: a lock-free read of the hash-cache entry does not violate SameDigestEverywhere")
+    base = tempfile.mkdtemp(prefix="verif_hashrace_")
+    try:
+        f = _os.path.join(base, "in.dat")
+        open(f, "w").write("content of the hashed file\n")
+        cache = _os.path.join(base, "hashcache")
+        _os.makedirs(cache)
+        procs = []
+        for role, seed in (("writer", "1"), ("reader", "2")):
+            out = _os.path.join(base, role + ".json")
+            procs.append((role, out, subprocess.Popen([core.PY, "-m", "harness.hashrace_child", role, f, cache, out],
+                                                       env=core.child_env({"PYTHONHASHSEED": seed}), stderr=subprocess.PIPE, text=True)))
+        for role, out, p in procs:
+            try:
+                p.wait(timeout=120)
+            except subprocess.TimeoutExpired:
+                p.kill()
+                raise core.MachineryError(f"hash race child {role} timed out")
+        out = _os.path.join(base, "late.json")
+        subprocess.run([core.PY, "-m", "harness.hashrace_child", "late", f, cache, out], env=core.child_env({"PYTHONHASHSEED": "3"}), timeout=120)
+        res = {}
+        for role in ("writer", "reader", "late"):
+            pth = _os.path.join(base, role + ".json")
+            if not _os.path.exists(pth):
+                raise core.MachineryError(f"hash race child {role} wrote no result")
+            res[role] = json.load(open(pth))["digest"]
+        ctx.ran(3)
+        ctx.nontriv("concurrent-file-hash")
+        if len(set(res.values())) != 1:
+            ctx.violation("sessions hashing one file concurrently obtain different digests (cache identity differs between sessions)",
+                          case={"scenario": "concurrent_file_hash"}, expected="one digest", observed=res)
+    finally:
+        shutil.rmtree(base, ignore_errors=True)
 
 
 def replay(ctx, rec):
